@@ -170,3 +170,130 @@ Example ex_missing : load_file [[112]] ex_ws [[112]; [122]] = FlMissing.
 Proof. vm_compute. reflexivity. Qed.
 Example ex_assert : load_file [[112]] ex_ws [[113]; [100]] = FlAssert.
 Proof. vm_compute. reflexivity. Qed.
+
+
+(* ---- 5. a workspace with distinct node keys is loaded as a finite map: no key twice ----------------------- *)
+Lemma keys_distinct_NoDup l : keys_distinct l = true -> NoDup l.
+Proof.
+  induction l as [|k r IH]; cbn; intros H; [constructor|].
+  apply andb_true_iff in H. destruct H as [Hn Hr]. constructor; [|now apply IH].
+  intros Hin. apply negb_true_iff in Hn.
+  assert (existsb (key_eqb k) r = true) as E; [|congruence].
+  apply existsb_exists. exists k. split; [exact Hin | apply key_eqb_refl].
+Qed.
+
+Lemma NoDup_map_filter {A B} (g : A -> B) (f : A -> bool) (l : list A) :
+  NoDup (map g l) -> NoDup (map g (filter f l)).
+Proof.
+  induction l as [|x l IH]; cbn; intros H; [constructor|].
+  inversion H as [|y r Hnin Hnd]; subst. destruct (f x); cbn; [|now apply IH].
+  constructor; [|now apply IH]. intros Hin. apply Hnin.
+  apply in_map_iff in Hin. destruct Hin as [z [Hz Hzin]]. apply filter_In in Hzin.
+  apply in_map_iff. exists z. tauto.
+Qed.
+
+Theorem load_file_keys_distinct p w k l :
+  keys_distinct (map f_key w) = true -> load_file p w k = FlOk l -> NoDup (map fst l).
+Proof.
+  intros Hd H. pose proof (load_file_total p w k) as T. rewrite H in T. subst l.
+  unfold under, explicit_of. rewrite filter_map_comm, map_map. cbn [fst].
+  apply keys_distinct_NoDup in Hd.
+  apply (NoDup_map_filter f_key (fun n => strict_prefix k (p ++ f_key n))) in Hd.
+  remember (filter (fun n => strict_prefix k (p ++ f_key n)) w) as F eqn:HF. clear HF.
+  induction F as [|n F IH]; cbn; [constructor|].
+  cbn in Hd. inversion Hd as [|y r Hnin Hnd]; subst. constructor; [|now apply IH].
+  intros Hin. apply Hnin. apply in_map_iff in Hin. destruct Hin as [z [Hz Hzin]].
+  apply app_inv_head in Hz. apply in_map_iff. exists z. tauto.
+Qed.
+
+(* a tree-shaped workspace ([ws_treeb], what the correspondence checks on every case) has distinct keys *)
+Lemma ws_tree_keys_distinct w : ws_treeb w = true -> keys_distinct (map f_key w) = true.
+Proof.
+  unfold ws_treeb. intros H. apply andb_true_iff in H. destruct H as [H _].
+  apply andb_true_iff in H. tauto.
+Qed.
+
+
+(* ---- 6. the index after DataIndex._load through a FileStorage: every look-up characterised ----------------- *)
+Lemma lookup_app a b k :
+  lookup (a ++ b) k = match lookup a k with Some e => Some e | None => lookup b k end.
+Proof.
+  induction a as [|[k' e] a IH]; cbn; [reflexivity|]. destruct (key_eqb k k'); [reflexivity | exact IH].
+Qed.
+
+Lemma lookup_under k l k' :
+  lookup (under k l) k' = if strict_prefix k k' then lookup l k' else None.
+Proof.
+  unfold under. induction l as [|[k2 e] l IH]; cbn [filter lookup fst].
+  - now destruct (strict_prefix k k').
+  - destruct (strict_prefix k k2) eqn:Hs; cbn [lookup].
+    + destruct (key_eqb k' k2) eqn:He; [|exact IH].
+      apply key_eqb_eq in He. subst k2. now rewrite Hs.
+    + destruct (key_eqb k' k2) eqn:He; [|exact IH].
+      apply key_eqb_eq in He. subst k2. rewrite Hs in *. exact IH.
+Qed.
+
+Lemma lookup_mark_at k i k' :
+  lookup (mark_at k i) k' = if key_eqb k' k then option_map mark (lookup i k') else lookup i k'.
+Proof.
+  unfold mark_at. induction i as [|[k2 e] i IH]; cbn [map lookup fst snd].
+  - now destruct (key_eqb k' k).
+  - destruct (key_eqb k2 k) eqn:H2; cbn [lookup].
+    + destruct (key_eqb k' k2) eqn:He; [|exact IH].
+      apply key_eqb_eq in He. subst k2. now rewrite H2.
+    + destruct (key_eqb k' k2) eqn:He; [|exact IH].
+      apply key_eqb_eq in He. subst k2. now rewrite H2.
+Qed.
+
+Theorem idx_load_file_lookup p w k i i' :
+  idx_load_file p w k i = Some i' ->
+  forall k',
+    lookup i' k' =
+    if strict_prefix k k'
+    then match lookup (explicit_of p w) k' with Some e => Some e | None => lookup i k' end
+    else if key_eqb k' k then option_map mark (lookup i k') else lookup i k'.
+Proof.
+  unfold idx_load_file. intros H k'. pose proof (load_file_total p w k) as T.
+  destruct (load_file p w k) as [| |l]; try discriminate. injection H as <-. subst l.
+  rewrite lookup_app, lookup_under, lookup_mark_at.
+  destruct (strict_prefix k k') eqn:Hs; [|reflexivity].
+  assert (key_eqb k' k = false) as ->; [|reflexivity].
+  apply strict_prefix_spec in Hs. destruct Hs as [_ Hne].
+  destruct (key_eqb k' k) eqn:He; [|reflexivity]. apply key_eqb_eq in He. congruence.
+Qed.
+
+(* the property's premise "holds the directory as a single unloaded entry": nothing stored below k.  Then the
+   loaded index answers every key below k exactly as the explicit index over the workspace, and every other
+   key as before (the entry at k itself only gains the bookkeeping flag) *)
+Theorem idx_load_file_transparent p w k i i' :
+  (forall k', strict_prefix k k' = true -> lookup i k' = None) ->
+  idx_load_file p w k i = Some i' ->
+  (forall k', strict_prefix k k' = true -> lookup i' k' = lookup (explicit_of p w) k') /\
+  (forall k', strict_prefix k k' = false -> lookupS i' k' = lookupS i k').
+Proof.
+  intros Hwf H. split; intros k' Hs; unfold lookupS; rewrite (idx_load_file_lookup _ _ _ _ _ H k'), Hs.
+  - rewrite (Hwf k' Hs). now destruct (lookup (explicit_of p w) k').
+  - destruct (key_eqb k' k); [|reflexivity]. now destruct (lookup i k').
+Qed.
+
+(* a refused load (assertion, absent path) is never remembered: there is no new index *)
+Theorem idx_load_file_refused p w k i :
+  idx_load_file p w k i = None <-> (forall l, load_file p w k <> FlOk l).
+Proof.
+  unfold idx_load_file. destruct (load_file p w k); split; intros H; try discriminate; try congruence.
+  exfalso. now apply (H l).
+Qed.
+
+Example ex_idx_load :
+  exists i', idx_load_file [[112]] ex_ws [[112]; [100]]
+               [([[112]; [100]], {| e_meta := Some {| m_dir := true; m_size := None; m_exec := false |};
+                                    e_hash := None; e_loaded := false |})] = Some i'
+             /\ length i' = 4%nat
+             /\ (forall k', strict_prefix [[112]; [100]] k' = true ->
+                            lookup [([[112]; [100]], {| e_meta := Some {| m_dir := true; m_size := None; m_exec := false |};
+                                                         e_hash := None; e_loaded := false |})] k' = None).
+Proof.
+  eexists. split; [vm_compute; reflexivity|]. split; [reflexivity|].
+  intros k' Hs. cbn [lookup]. destruct (key_eqb k' [[112]; [100]]) eqn:He; [|reflexivity].
+  apply key_eqb_eq in He. subst k'. vm_compute in Hs. discriminate.
+Qed.
